@@ -2,7 +2,7 @@
    line, an unsymbolized location = one address frame that matches nothing), independent of
    the per-location / per-sample control flow of M_Prune.  Decidable checkers + the decidable
    classes of the known findings F14 and F15. *)
-From PV Require Export M_Prune.
+From PV Require Export M_Prune S_Filter.
 Open Scope Z_scope.
 
 (* ------------------------------------------------------------ frame-level rules *)
@@ -45,9 +45,6 @@ End Rules.
 Section PruneSpec.
   Variable M : string -> string -> bool.
 
-  Definition frame_fn (p : profile) (fr : frame) : option function :=
-    match fr_line fr with Some ln => find_function p (ln_fn ln) | None => None end.
-
   (* "whose simplified function name fully matches drop_frames but not keep_frames"
      (the anchoring ^(..)$ is part of the expression handed to M) *)
   Definition frame_dropped (p : profile) (drop : string) (keep : option string) (fr : frame) : bool :=
@@ -64,9 +61,6 @@ Section PruneSpec.
     | Some f => negb (String.eqb (f_name f) "") && M re (simplify_func (f_name f))
     | None => false
     end.
-
-  Definition loc_frames_of (p : profile) (id : Z) : list frame :=
-    match find_location p id with Some l => loc_frames l | None => [] end.
 
   (* ---- F14: a location with both matching and non-matching frames lies root-side of the
           first location without any matching frame *)
@@ -95,12 +89,13 @@ Section PruneSpec.
     end.
   Definition in_F15 (p : profile) (re : string) : bool := existsb (in_F15_sample p re) (p_sample p).
 
-  (* ---- decidable checkers on a result profile p' *)
-  Definition of_frame (f : frame) : term := TL [TZ (fr_loc f); of_opt of_line (fr_line f)].
-  Definition frames_eqb (a b : list frame) : bool := term_eqb (TL (map of_frame a)) (TL (map of_frame b)).
-  Definition payload_eqb (s s' : sample) : bool :=
-    term_eqb (of_zs (s_val s)) (of_zs (s_val s')) && term_eqb (of_kss (s_label s)) (of_kss (s_label s'))
-    && term_eqb (of_kzs (s_numlabel s)) (of_kzs (s_numlabel s')) && term_eqb (of_kss (s_numunit s)) (of_kss (s_numunit s')).
+  (* ---- the rules on frame samples, and decidable checkers on a result profile p':
+          same number of samples, values and labels untouched, frames as the rule says,
+          a sample that had frames never becomes empty *)
+  Definition spec_prune (p : profile) (drop : string) (keep : option string) (ss : list fsample) : list fsample :=
+    map (on_frames (prune_frames (frame_dropped p drop keep))) ss.
+  Definition spec_prune_from (p : profile) (re : string) (ss : list fsample) : list fsample :=
+    map (on_frames (prune_from_frames (frame_from p re))) ss.
 
   Fixpoint forallb2 {A B} (f : A -> B -> bool) (a : list A) (b : list B) : bool :=
     match a, b with
@@ -108,17 +103,11 @@ Section PruneSpec.
     | x :: a', y :: b' => f x y && forallb2 f a' b'
     | _, _ => false
     end.
-
-  (* same number of samples, payload untouched, frames as the rule says, non-empty stays non-empty *)
-  Definition check_frames (rule : sample -> list frame) (p p' : profile) : bool :=
-    forallb2 (fun s s' =>
-      payload_eqb s s'
-      && frames_eqb (sample_frames p' s') (rule s)
-      && (is_nil (sample_frames p s) || negb (is_nil (sample_frames p' s'))))
-      (p_sample p) (p_sample p').
+  Definition never_emptied (ss ss' : list fsample) : bool :=
+    forallb2 (fun s s' => is_nil (fs_frames s) || negb (is_nil (fs_frames s'))) ss ss'.
 
   Definition check_prune (p : profile) (drop : string) (keep : option string) (p' : profile) : bool :=
-    check_frames (fun s => prune_frames (frame_dropped p drop keep) (sample_frames p s)) p p'.
+    fsamples_eqb (fsamples p') (spec_prune p drop keep (fsamples p)) && never_emptied (fsamples p) (fsamples p').
   Definition check_prune_from (p : profile) (re : string) (p' : profile) : bool :=
-    check_frames (fun s => prune_from_frames (frame_from p re) (sample_frames p s)) p p'.
+    fsamples_eqb (fsamples p') (spec_prune_from p re (fsamples p)) && never_emptied (fsamples p) (fsamples p').
 End PruneSpec.
